@@ -59,7 +59,9 @@ def run_dispatch(graphs, release=False, timeout=3600):
 
 
 def run_harness(exe, hf, graphs, timeout):
-    p = subprocess.run([exe, "dispatch", hf], stdout=subprocess.PIPE, text=True, timeout=timeout)
+    # a handful of graphs (shrinking, replay): a case that does not return is given up after 45 s
+    env = dict(os.environ, SV_WATCHDOG_SECS="45") if len(graphs) <= 3 else None
+    p = subprocess.run([exe, "dispatch", hf], stdout=subprocess.PIPE, text=True, timeout=timeout, env=env)
     if p.returncode == 0:
         lines = p.stdout.rstrip("\n").split("\n") if graphs else []
         if len(lines) == len(graphs):
@@ -101,7 +103,7 @@ def violation(r):
         return "real dispatch: a writer of a resource ran while another system was reading or writing it " \
                "(reader/writer counters)"
     if not r["panic_eq"]:
-        return "the builder panicked where the model does not (or the reverse)"
+        return "the builder panicked where the model does not (or the reverse), or the dispatch did not return"
     return None
 
 
@@ -191,6 +193,10 @@ def shrink(g):
 
     cur = list(g)
     budget = 60
+    deadline = time.time() + 600          # an implementation that hangs costs a watchdog period per attempt
+
+    def fails(x, _f=fails):
+        return time.time() < deadline and _f(x)
     # probes: one at a time
     probes = [it for it in cur if it[0] == "probe"]
     if probes:
